@@ -22,3 +22,4 @@ def run(ctx):
     immut.im5(ctx)
     immut.im8(ctx)
     immut.im9(ctx)
+    immut.im10(ctx)
